@@ -56,11 +56,17 @@ def cond_str(c: List[Any]) -> str:
     if t == "minimum":
         return ("not " if c[1] else "") + f"minimum({c[2]}, [{', '.join(sorted(c[3]))}])"
     if t == "cds":
-        return ("not " if c[1] else "") + "cds(" + " or ".join(cond_str(s) for s in c[2]) + ")"
+        inner = " or ".join(cond_str(s) for s in c[2])
+        if len(c[2]) == 1 and c[2][0][0] == "group" and not inner.startswith("("):   # fixes/D26
+            inner = "(" + inner + ")"
+        return ("not " if c[1] else "") + "cds(" + inner + ")"
     if t == "group":
         prefix = "not " if c[1] else ""
         if len(c[2]) == 1 and c[2][0][0] != "conj":
-            return prefix + cond_str(c[2][0])
+            inner = cond_str(c[2][0])
+            if c[1] and inner.startswith("not "):   # fixes/D17: a nested negation keeps its parentheses
+                return "not (" + inner + ")"
+            return prefix + inner
         return prefix + "(" + " or ".join(cond_str(s) for s in c[2]) + ")"
     if t == "conj":
         return " and ".join(cond_str(s) for s in c[1])
@@ -136,3 +142,21 @@ def cond_drop_operand(c: List[Any]) -> Iterator[List[Any]]:
                     yield ["conj", new]
             else:
                 yield [c[0], c[1], new]
+
+
+def cond_json(cond: Any) -> List[Any]:
+    """real condition object -> the JSON form above (minimum options sorted: they are a set)"""
+    from antismash.common.hmm_rule_parser import rule_parser as rp
+    if isinstance(cond, rp.SingleCondition):
+        return ["single", bool(cond.negated), cond.name]
+    if isinstance(cond, rp.ScoreCondition):
+        return ["score", bool(cond.negated), cond.name, int(cond.score)]
+    if isinstance(cond, rp.MinimumCondition):
+        return ["minimum", bool(cond.negated), int(cond.count), sorted(cond.options)]
+    subs = [cond_json(sub) for sub in cond.operands]
+    if isinstance(cond, rp.CDSCondition):
+        return ["cds", bool(cond.negated), subs]
+    if isinstance(cond, rp.AndCondition):
+        return ["conj", subs]
+    assert type(cond) is rp.Conditions, type(cond)
+    return ["group", bool(cond.negated), subs]
